@@ -18,7 +18,8 @@ CLAIMED = {
    text='Unbounded proof (Verus/Z3) over the real bodies of src/fpgroups/free_words.rs: the reduced-word type invariant is re-established by every '
         'constructor and operation (new, empty, inverse, raised_to, commutator, rotated, all six * forms, *=), each result equals the '
         'free reduction of the concatenation / inverse / power, cmp is the verified lexicographic order with proved strict-total-order '
-        'lemmas, relator_representative is the least candidate and relator_permutations is exactly the candidate set; group axioms are '
+        'lemmas, relator_representative is the least candidate and relator_permutations is exactly the candidate set; for a cyclically reduced word '
+        'every rotation and the inverse have the same candidate set and hence the same representative (lemma over the contracts); group axioms are '
         'lemmas over the same spec function.',
    note='Trusted: Verus+Z3, vstd; std semantics of three iterator expressions vstd does not model (chain/cloned/collect in mul, '
         'empty().chain(skip).chain(take).cloned() in rotated, (0..m).fold in raised_to) stated as external_body contracts; '
@@ -52,9 +53,13 @@ CLAIMED = {
  'C04': dict(
    text='Unbounded proof (Verus/Z3), generic over the DSet interface, of the real morphism body: Some(m) is a map with m[1] = img0 that commutes with '
         'every operation and preserves every degree on all chambers it assigns; None implies that no morphism with that base image exists; '
-        'automorphisms lists exactly the successful base images. The interface contract is proved for all four concrete representations.',
-   note='Trusted: Verus+Z3, vstd. Requires img0 != 0 (0 is the code\'s unassigned marker). Not decided: totality/bijectivity of the map (needs connectivity = '
-        'Traversal), fold, is_minimal, minimal_image (congruence closure over the union-find), covers vs minimal images.',
+        'automorphisms lists exactly the successful base images. The interface contract is proved for all four concrete representations. '
+        'fold (real body; Partition<usize> through the contract proved in unit partitions): Some(p) is a degree-respecting congruence above p0 identifying d and e, '
+        'None implies that NO such congruence exists; is_minimal is true exactly when no chamber can be merged with chamber 1 by any degree-respecting congruence, '
+        'which for a symbol connected from chamber 1 is: the identity is the only degree-respecting congruence.',
+   note='Trusted: Verus+Z3, vstd. Requires img0 != 0 (0 is the code\'s unassigned marker); fold/is_minimal require a complete symbol and chambers in range; termination. '
+        'Not decided by contracts (bounded stand-in only): totality/bijectivity of the morphism map (needs connectivity = Traversal), minimal_image (iterated fold + quotient '
+        'construction), covers vs minimal images.',
    ref='5 C04', technique=TECH),
  'C11': dict(
    text='Unbounded proof (Verus/Z3) over the real bodies of CosetTable::{new, len, canon, get, set, join}, scan, scan_inverse, scan_both_ways and '
